@@ -42,16 +42,16 @@ theorem packFrom_length (C : FactsClient) (args : List Val) (kwargs : List (Text
 /-! ### responses in every body style -/
 
 /-- what the response denotes: the wrapper object, or the bare return value -/
-def respValue (style : Style) (outMsg : Ty) (rets : List Val) : Val :=
-  if style.outWrapped then outObject outMsg rets else rets.headD .none
+def respValue (S : FactsSoap) (style : Style) (outMsg : Ty) (rets : List Val) : Val :=
+  if style.outWrapped then outObject outMsg rets else bareReturn S outMsg (rets.headD .none)
 
-theorem response_rt {F : Facts08} {X : FactsXml} {cfg : Cfg} {I : Iface} (C : RtCtx F X cfg I)
+theorem response_rt {F : Facts08} {X : FactsXml} {cfg : Cfg} {I : Iface} (C : RtCtx F X cfg I) (S : FactsSoap)
     (style : Style) (outName : Text) (outMsg : Ty) (ht : tyWf outMsg = true)
     (hw : style.outWrapped = true → isObjTy outMsg = true) (rets : List Val)
-    (hok : okOneX I cfg.polymorphic cfg.soft outMsg (respValue style outMsg rets) = true)
-    (hfit : fitsV F (respValue style outMsg rets) = true) :
-    ∃ e, responseNodes F cfg I style outName outMsg rets = [e] ∧
-      fromElement F X cfg I outMsg e = .ok (normOneX I outMsg (respValue style outMsg rets)) := by
+    (hok : okOneX I cfg.polymorphic cfg.soft outMsg (respValue S style outMsg rets) = true)
+    (hfit : fitsV F (respValue S style outMsg rets) = true) :
+    ∃ e, responseNodes F S cfg I style outName outMsg rets = [e] ∧
+      fromElement F X cfg I outMsg e = .ok (normOneX I outMsg (respValue S style outMsg rets)) := by
   unfold responseNodes
   by_cases hs : style.outWrapped = true
   · simp only [hs, if_true]
